@@ -29,6 +29,8 @@ class _Eval:
         self.env: T.Dict[str, T.Any] = {}
         self.targets: T.Dict[str, T.Dict[str, T.Any]] = {}
         self.dir = ''
+        self.project = ''
+        self.nconsumer = 0
 
     def run(self) -> T.Dict[str, T.Dict[str, T.Any]]:
         self.block(R.parse(self.files['meson.build']))
@@ -93,8 +95,28 @@ class _Eval:
                         raise Unsupported('files()')
                     out.append(('file', os.path.normpath(os.path.join(self.dir, s))))
             return out
+        if name in ('custom_target', 'install_data', 'configure_file'):
+            # a consumer of file lists that is not a build target: recorded like one (it must keep its files too)
+            self.nconsumer += 1
+            if name == 'custom_target':
+                key = 'custom_target:' + str(self.value(f.args.arguments[0]))
+                kv = R.kwarg(f, 'input')
+                srcs0 = self.flat(self.value(kv)) if kv is not None else []
+            elif name == 'install_data':
+                key = 'install_data#%d' % self.nconsumer
+                srcs0 = []
+                for a in f.args.arguments:
+                    srcs0 += self.flat(self.value(a))
+            else:
+                key = 'configure_file#%d' % self.nconsumer
+                kv = R.kwarg(f, 'input')
+                srcs0 = self.flat(self.value(kv)) if kv is not None else []
+            self.targets[key] = {'src': sorted(self.path(s_) for s_ in srcs0), 'extra': [], 'kw': {}}
+            return ('consumer', key)
         if name in R.TARGET_FUNCS:
-            tname = f.args.arguments[0].value
+            tname = self.value(f.args.arguments[0])     # the name may be computed (loop variable, string +, project name)
+            if not isinstance(tname, str):
+                raise Unsupported('target name')
             srcs: T.List[T.Any] = []
             for a in f.args.arguments[1:]:
                 srcs += self.flat(self.value(a))
@@ -114,7 +136,11 @@ class _Eval:
                         kws[k.value] = ('expr', R.ser(v, erase=True))
             self.targets[tname] = {'src': sorted(self.path(s) for s in srcs), 'extra': sorted(self.path(s) for s in ex), 'kw': kws}
             return ('target', tname)
-        if name in ('project', 'message', 'summary'):
+        if name == 'project':
+            if f.args.arguments and isinstance(f.args.arguments[0], M.StringNode):
+                self.project = f.args.arguments[0].value
+            return None
+        if name in ('message', 'summary'):
             return None
         raise Unsupported('call ' + name)
 
@@ -159,7 +185,12 @@ class _Eval:
             a, b = self.value(n.left), self.value(n.right)
             if isinstance(a, list) and isinstance(b, list):
                 return a + b
+            if isinstance(a, str) and isinstance(b, str):
+                return a + b
             raise Unsupported('+')
+        if isinstance(n, M.MethodNode) and isinstance(n.source_object, M.IdNode) and n.source_object.value == 'meson' \
+                and n.name.value == 'project_name' and not n.args.arguments:
+            return self.project
         if isinstance(n, M.TernaryNode):
             return self.value(n.trueblock) if self.cond(n.condition) else self.value(n.falseblock)
         if isinstance(n, M.FunctionNode):
@@ -201,8 +232,13 @@ def flow_oracle(before: T.Dict[str, str], after: T.Dict[str, str], cmd: T.Dict[s
                     viol.append(('flow:other-target-appeared-or-vanished', f'[{cs}] target {u} ' + ('vanished' if u in b else 'appeared')))
                 continue
             if a[u] != b[u]:
-                viol.append(('flow:other-target-changed',
-                             f'[{cs}] target {u} was not addressed but its real value changed: {b[u]} -> {a[u]}'))
+                if u.startswith(('custom_target:', 'install_data#', 'configure_file#')):
+                    # recorded finding: affects_no_other_targets counts build-target calls only
+                    viol.append(('shared-list:non-target-consumer-changed',
+                                 f'[{cs}] {u} was not addressed but the files it is given changed: {b[u]["src"]} -> {a[u]["src"]}'))
+                else:
+                    viol.append(('flow:other-target-changed',
+                                 f'[{cs}] target {u} was not addressed but its real value changed: {b[u]} -> {a[u]}'))
         if tname is None or tname not in b:
             continue
         if op == 'target_rm':
@@ -479,3 +515,71 @@ def gen_flow(rng: T.Any, ncmd: int) -> T.Dict[str, T.Any]:
     meta = {'targets': {}, 'deps': {}, 'project': {}, 'hazard': 'flow', 'pool': [], 'extra_pool': [], 'shared': [],
             'allfiles': allfiles, 'features': sorted(feats)}
     return {'files': files, 'cmds': cmds, 'meta': meta, 'mode': 'single', 'prints': False, 'cwd': 'outside', 'flow': True}
+
+
+# ------------------------------------------------------------------------------------------------ shared-variable family
+
+SHARED_CONSUMERS = ['none', 'plain-target', 'computed-name-target', 'variable-name-target', 'foreach-target', 'if-else-target',
+                    'custom_target-input', 'install_data', 'derived-variable-target']
+SHARED_LAYOUTS = ['list+own', 'files+own', 'list-plus-inline', 'via-derived-variable', 'list-only']
+
+
+def shared_family() -> T.List[T.Dict[str, T.Any]]:
+    """a source-list VARIABLE feeding the addressed target AND another consumer: layouts of the addressed target x kind of the
+    other consumer (targets the analyser can and cannot name, control flow, non-target consumers) x consumer before / after the
+    addressed target x add a new file / rm a file of the shared list / rm a file of the target's own. Judged by the ground-truth
+    evaluator (flow_oracle): every OTHER consumer keeps its files in every configuration — or the command changes nothing."""
+    out: T.List[T.Dict[str, T.Any]] = []
+    allfiles = ['s0.c', 's1.c', 'main.c', 'bar.c', 't1.c', 't2.c', 'new0.c', 'own.c']
+    for layout in SHARED_LAYOUTS:
+        for cons in SHARED_CONSUMERS:
+            for where in ('after', 'before'):
+                for opname in ('add-new', 'rm-shared', 'rm-own'):
+                    if layout == 'files+own' and cons in ('install_data',) and False:
+                        continue
+                    if opname == 'rm-own' and layout == 'list-only':
+                        continue
+                    lines = ["project('demo')"]
+                    lines.append("shared = files('s0.c', 's1.c')" if layout == 'files+own' else "shared = ['s0.c', 's1.c']")
+                    if layout in ('list+own', 'files+own'):
+                        foo = ["foo = executable('foo', shared, 'main.c', 'own.c')"]
+                    elif layout == 'list-plus-inline':
+                        foo = ["foo = executable('foo', shared + ['main.c', 'own.c'])"]
+                    elif layout == 'via-derived-variable':
+                        foo = ["foo_srcs = shared + ['main.c', 'own.c']", "foo = executable('foo', foo_srcs)"]
+                    else:
+                        foo = ["foo = executable('foo', shared)"]
+                    if cons == 'none':
+                        other: T.List[str] = ["z = 1"]
+                    elif cons == 'plain-target':
+                        other = ["bar = executable('bar', shared, 'bar.c')"]
+                    elif cons == 'computed-name-target':
+                        other = ["tool = executable(meson.project_name() + '-tool', shared)"]
+                    elif cons == 'variable-name-target':
+                        other = ["nm = 'bar-' + 'x'", "executable(nm, shared, 'bar.c')"]
+                    elif cons == 'foreach-target':
+                        other = ["foreach n : ['t1', 't2']", "  executable(n, shared + [n + '.c'])", "endforeach"]
+                    elif cons == 'if-else-target':
+                        other = ["if get_option('oa')", "  executable('bar', shared)", "else", "  library('bar2', shared, 'bar.c')", "endif"]
+                    elif cons == 'custom_target-input':
+                        other = ["gen = custom_target('gen', input: shared, output: 'all.txt', command: ['cat', '@INPUT@'], capture: true)"]
+                    elif cons == 'install_data':
+                        other = ["install_data(shared, install_dir: 'share/demo')"]
+                    else:
+                        other = ["more = shared + ['bar.c']", "bar = static_library('bar', more)"]
+                    body = (foo + other) if where == 'after' else (other + foo)
+                    text = '\n'.join(lines + body + ['done = true']) + '\n'
+                    if opname == 'add-new':
+                        cmd = {'type': 'target', 'target': 'foo', 'operation': 'src_add', 'sources': ['new0.c']}
+                    elif opname == 'rm-shared':
+                        cmd = {'type': 'target', 'target': 'foo', 'operation': 'src_rm', 'sources': ['s0.c']}
+                    else:
+                        cmd = {'type': 'target', 'target': 'foo', 'operation': 'src_rm', 'sources': ['own.c']}
+                    files = {f: '' for f in allfiles}
+                    files['meson.build'] = text
+                    files['meson_options.txt'] = ''.join("option('%s', type: 'boolean', value: false)\n" % o for o in OPTS)
+                    out.append({'files': files, 'cmds': [cmd], 'mode': 'single', 'prints': False, 'cwd': 'outside', 'flow': True,
+                                'script': False, 'shared_case': f'{layout}:{cons}:{where}:{opname}',
+                                'meta': {'targets': {}, 'deps': {}, 'project': {}, 'hazard': 'flow', 'pool': [], 'extra_pool': [],
+                                         'shared': [], 'allfiles': allfiles, 'features': []}})
+    return out
